@@ -164,6 +164,85 @@ def shard(arg):
     return st
 
 
+def sparse_strategy():
+    """Grid boards that are blank or nearly blank, over item terms whose space runs pack as densely as
+    the format allows (Spaces(space, c) for every c incl. '0' = 36 cells per character, IntSpaces using
+    all 36 characters): the shortest texts a board can have"""
+    from hypothesis import strategies as st
+
+    B36 = "0123456789abcdefghijklmnopqrstuvwxyz"
+
+    @st.composite
+    def c(draw):
+        which = draw(st.integers(0, 3))
+        space = draw(st.sampled_from([-1, 0, "."]))
+        if which == 0:
+            term = ["Spaces", GC.from_py(space), draw(st.sampled_from(["0", "0", "1", "5", "g", "z"]))]
+            clue = None
+        elif which == 1:
+            term = ["OneOf", [["HexInt"], ["Spaces", GC.from_py(space if space != 0 else -1), draw(st.sampled_from(["g", "h", "k", "z"]))]]]
+            space = space if space != 0 else -1
+            clue = st.sampled_from([0, 1, 15, 16, 255, 256, 4095])
+        else:
+            max_int = draw(st.sampled_from([0, 1, 2, 3, 5, 8, 11, 17, 35]))
+            max_sp = 36 // (max_int + 1) - 1
+            if draw(st.integers(0, 3)) == 0 and max_sp > 0:
+                max_sp -= 1
+            space = -1
+            term = ["IntSpaces", -1, max_int, max_sp]
+            clue = st.integers(0, max_int)
+        h, w = draw(st.sampled_from([(6, 6), (4, 9), (1, 36), (36, 1), (72, 1), (1, 35), (5, 7), (1, 37), (6, 12), (9, 8),
+                                     (10, 10), (7, 5), (2, 18), (3, 24), (12, 12), (1, 108)]))
+        if draw(st.integers(0, 2)) == 0:
+            h, w = draw(st.integers(1, 12)), draw(st.integers(1, 12))
+        grid = [[space] * w for _ in range(h)]
+        ncl = 0
+        if clue is not None:
+            ncl = draw(st.sampled_from([0, 0, 1, 1, 2, 3]))
+            for _ in range(ncl):
+                y, x = draw(st.integers(0, h - 1)), draw(st.integers(0, w - 1))
+                if draw(st.booleans()):
+                    y, x = draw(st.sampled_from([(0, 0), (h - 1, w - 1)]))
+                grid[y][x] = draw(clue)
+        if which >= 2:
+            if grid[0][0] == space:
+                grid[0][0] = draw(clue)  # IntSpaces runs need a number to hang on
+                ncl += 1
+            # without a Spaces alternative the runs between numbers are bounded by max_sp
+            run = 0
+            for y in range(h):
+                for x in range(w):
+                    if (y, x) == (0, 0):
+                        continue
+                    if grid[y][x] == space:
+                        run += 1
+                        if run > term[3]:
+                            grid[y][x] = draw(clue)
+                            run = 0
+                    else:
+                        run = 0
+        explicit = draw(st.booleans())
+        return dict(term=["Grid", term, h if explicit else None, w if explicit else None], value=GC.from_py(grid),
+                    height=h, width=w, junk=draw(st.sampled_from(["", "/", "z", "0"])), flags=["sparse-board"],
+                    cells=h * w, clues=ncl)
+
+    return c()
+
+
+def shard_sparse(arg):
+    seed, n = arg
+    st = Stats()
+
+    def b(case):
+        nt = case["cells"] >= 36
+        cl = ["sparse-board", "sparse:" + case["term"][1][0]] + (["sparse:blank>=36"] if nt and case["clues"] == 0 else [])
+        st.case(canon=case, nontrivial=nt, classes=cl, sample=case if nt and case["cells"] <= 40 else None)
+        body(case)
+
+    hyp_search(st, sparse_strategy(), b, seed=seed, max_examples=n, check="c15.sparse")
+    return st
+
+
 def run(ctx):
     ctx.rule = (
         "Hypothesis draws (combinator term, value) jointly: item-level terms (HexInt / IntSpaces / "
@@ -183,8 +262,11 @@ def run(ctx):
     k, n = (16, 1500) if ctx.quick() else (16, 15000)
     for r in pmap(shard, [(ctx.seed * 1000 + i, n) for i in range(k)]):
         ctx.stats.merge(r)
+    for r in pmap(shard_sparse, [(ctx.seed * 1000 + 100 + i, 250 if ctx.quick() else 4000) for i in range(8)]):
+        ctx.stats.merge(r)
     cl = ctx.stats.classes
-    tot = max(1, ctx.stats.evaluations)
+    ctx.floor("entirely blank boards of >= 36 cells", cl["sparse:blank>=36"], 100)
+    tot = max(1, ctx.stats.evaluations - cl["sparse-board"])
     ctx.floor("1xN / Nx1 boards (share)", round(cl["flag:single-row-or-column"] / tot, 3), 0.08)
     ctx.floor("unsorted rooms among Rooms cases",
               round(cl["flag:unsorted-rooms"] / max(1, cl["flag:rooms"]), 3), 0.25)
